@@ -16,7 +16,13 @@
 
 extern "C" void vstl_capacity_exceeded(void);   // harness: assume(false) - outside the stated bound
 extern "C" void vstl_length_error(void);        // models std::length_error / std::bad_alloc (an exception)
+extern "C" void vstl_oob(void);                 // index beyond size(): memory-safety violation of the real container
 extern "C" void vstl_access(const void* container); // lock-discipline hook (C18); empty by default
+
+#ifndef VSTL_MAX_NEST
+#define VSTL_MAX_NEST 2
+#endif
+static int vstl_copy_depth;   // current nesting depth of map copies (per translation unit; concrete)
 
 // Per-instantiation capacities: specialise before including the code under test.
 template<class K, class V> struct vstl_map_cap { enum { value = VSTL_CAP }; };
